@@ -26,3 +26,15 @@ Proof. vm_compute. split; reflexivity. Qed.
 Example c19_repaired_same_schedule :
   let st := frun true [0; 1; 0] (finit [7]) in errors st = 0 /\ written st = [7].
 Proof. vm_compute. split; reflexivity. Qed.
+
+(* a grace period of one rotation (the replaced file is closed at the NEXT rotation, the write happens outside the
+   lock -- seed C19-5) survives one rotation in the window and fails at the second: *)
+Example c19_grace_one_rotation :
+  let st := frun_grace [0; 1; 0] (finit [7]) in errors st = 0 /\ written st = [7].
+Proof. vm_compute. split; reflexivity. Qed.
+Example c19_grace_refuted :
+  let st := frun_grace [0; 1; 1; 0] (finit [7]) in errors st = 1 /\ written st = [].
+Proof. vm_compute. split; reflexivity. Qed.
+Example c19_repaired_two_rotations :
+  let st := frun true [0; 1; 1; 0] (finit [7]) in errors st = 0 /\ written st = [7].
+Proof. vm_compute. split; reflexivity. Qed.
